@@ -21,7 +21,11 @@ def classify(prop, key, shape):
     scope=key.split('|')[1]
     if scope in ('case triggers','related','LITCLS'):
         # only the dotted / dotless i family is a recorded finding
-        return 'D26' if ('\\u{130}' in key or '\\u{131}' in key) else None
+        if '\\u{130}' in key or '\\u{131}' in key: return 'D26'
+        f=key.split('|')
+        # the large range contains U+0130 / U+0131; their counterparts i / I are the input
+        if scope=='related' and f[2].startswith('^[\\u{100}-') and f[5] in ('i','I'): return 'D26'
+        return None
     if scope.startswith('DUP'): return 'D19'
     if scope.startswith('HIST'): return 'D24'
     if scope=='deep nesting': return 'D28' if (kind=='Abort' and 'depth 100000' in key) else None
